@@ -278,6 +278,9 @@ def _runtime_stack(ctx, helpers):
     em = [s_ for s_ in rs.body if isinstance(s_, ast.Expr) and isinstance(s_.value, ast.Call) and norm(s_.value.func) == "self.emit"]
     ok = len(em) == 1 and "rt.free(" in _fstr_text(em[0]) and "self.stack_size" in norm(em[0])
     ctx.ob("C24.R6", F + ":IrToPythonCompiler.reset_stack", "every return frees the function's accumulated alloca total (possibly 0)", ok, construct="free-on-return")
+    z = [n for n in rs.body if isinstance(n, ast.Assign) and norm(n.targets[0]) == "self.stack_size" and norm(n.value) == "0"]
+    ok = len(z) == 1 and em and z[0].lineno > em[0].lineno
+    ctx.ob("C24.R6", F + ":IrToPythonCompiler.reset_stack", "after the free the running total restarts at 0: the total is a sum over the Allocs in TEXT order, so a later return must not free them again (on its path they may never have been allocated: it would pop the caller's slots)", bool(ok), construct="total-reset-after-free")
     gi = ctx.fn(F, "IrToPythonCompiler.generate_instruction")
     acc = [n for n in ast.walk(gi) if isinstance(n, ast.AugAssign) and norm(n.target) == "self.stack_size" and isinstance(n.op, ast.Add) and norm(n.value) == "ins.amount"]
     ctx.ob("C24.R6", F + ":IrToPythonCompiler.generate_instruction", "each Alloc adds its size to that total", len(acc) == 1, construct="alloc-accumulates")
